@@ -16,6 +16,16 @@ CLAIMED = {
     "C01": (TV, "every tau* formula anthem emits for a generated rule is checked HT-equivalent to the TLA+ reference semantics of that "
                 "rule, for every HT interpretation over a finite base, by TLC", "7.1 C01", SEM_NOTE,
             "TLA+ reference semantics + TLC trace validation of anthem's tau* output (translation validation)", "tla-sem"),
+    "C02": (TV, "for every generated external-equivalence task anthem accepts and every emitted problem family, TLC compares - for every "
+                "classical interpretation of all predicates (both private copies) over the base and every placeholder value - 'some "
+                "forward/backward problem is refuted' with the reference oracle (stable models by brute force from the rule semantics, "
+                "private parts by support, user-guide and specification formulas evaluated on the input trees)", "7.1 C02",
+            SEM_NOTE + "; tasks without proof outline and without identifier clashes; side vocabulary = predicates occurring on that side",
+            "TLA+ reference semantics + TLC trace validation of the emitted problem families", "tla-sem"),
+    "C03": (TV, "for every generated pair of programs and emitted family, TLC compares - for every pair of extents (H,T) of the h/t copies, "
+                "H not necessarily below T - 'some forward/backward problem is refuted' with 'H below T, (H,T) HT-satisfies one program "
+                "(reference grounding) and not the other'", "7.1 C03", SEM_NOTE,
+            "TLA+ reference HT semantics + TLC trace validation of the emitted problem families", "tla-sem"),
     "C04": (TV, "for every generated program anthem reports tight and every admissible input set, TLC compares, for every classical "
                 "interpretation over the mentioned atoms, 'model of anthem's completion' with 'stable model of the program' (brute force over "
                 "all smaller H); completion also compared with a reference completion built in TLA+; theories with a listed defect must be "
@@ -24,12 +34,22 @@ CLAIMED = {
     "C05": (TV, "for every generated formula, every assignment and every pair H subset T over the base, TLC compares HT satisfaction of F "
                 "with classical satisfaction of anthem's gamma(F) under the h/t copy interpretation; copies checked distinct", "7.1 C05",
             SEM_NOTE, "TLA+ HT/classical semantics + TLC trace validation of gamma output", "tla-sem"),
+    "C06": (TV, "the TEXT of every rendered formula is read back by a strict TFF reader, typed by Tptp.tla, mapped through the standard "
+                "interpretation into sigma_0 and compared by TLC with the source formula for every interpretation and placeholder value; "
+                "inside emitted problems (C09/C12 runs) the same comparison is made per formula", "7.1 C06",
+            SEM_NOTE + "; strict TFF reader tools/tff.py, syntax verdicts cross-checked with the repository's tptp4X",
+            "TLA+ standard interpretation of TFF + TLC trace validation of tptp::Format output", "tla-syntax"),
     "C07": (TV, "each of the 9 portfolio x strategy results anthem computes for a generated formula is checked equivalent to the input by "
                 "TLC (HT for intuitionistic/ht, classical for classic) for every interpretation and assignment; no new free variables",
             "7.1 C07", SEM_NOTE, "TLA+ semantics + TLC trace validation of simplifier output", "tla-sem"),
     "C08": (TV, "natural and mu outputs are checked HT-equivalent, rule by rule, to anthem's tau* output and to the TLA+ reference "
                 "semantics, for every HT interpretation over a finite base, by TLC", "7.1 C08", SEM_NOTE,
             "TLA+ reference semantics + TLC trace validation of natural/mu output", "tla-sem"),
+    "C09": (MC, "every distinct problem text emitted for adversarial-identifier tasks and ordinary tasks is read back and judged by the TFF "
+                "typing judgement of Tptp.tla evaluated by TLC (declared exactly once at the used type, variables bound and typed, $int "
+                "signature, unique names, exactly one conjecture); known genuine defects are listed in known_findings.json", "7.1 C09",
+            "TLC; strict TFF reader (syntax cross-checked with tptp4X); the typing judgement is TFF0 without overloading",
+            "TLA+ typing judgement for TFF evaluated by TLC on every recorded problem text", "tla-syntax"),
     "C10": (MC, "Prover.tla (one action per step of Command::Verify / prove_all / Vampire::prove) is model-checked exhaustively for small "
                 "constants (exactly-once, at-most-N, verdict iff all Theorem, termination under fairness); TLC-generated behaviours are "
                 "replayed as plans against the real binary with a stand-in prover and every real run is validated by TLC as a behaviour "
@@ -37,9 +57,22 @@ CLAIMED = {
             "TLC; the stand-in prover and the stdout parser; a Theorem line combined with a non-zero exit is never planned",
             "TLA+ state machine of the prover pool, TLC model checking + trace validation of real runs (two logs, TLC chooses the merge)",
             "tla-prover"),
+    "C11": (MC, "two definitions of acyclicity agree on all graphs with <= 4 nodes (TLC); `analyze` output and task acceptance are compared by "
+                "TLC with Analysis.tla (tightness, documented regularity, private recursion, listed task preconditions) on abstract programs, "
+                "term shapes, long cycles and tasks that violate exactly one condition; refused tasks checked to write no file", "7.1 C11",
+            "TLC; the conditions judged are those listed in the property; acceptance is required only for program-vs-program tasks",
+            "TLA+ definitions of the analyses + TLC trace validation of analyze output and task acceptance", "tla-pipeline"),
+    "C12": (MC, "every axiom anthem adds on its own (preamble, symbol order chain, h-implies-t) in every recorded problem text is mapped through "
+                "the standard interpretation and evaluated by TLC on windows of radius 1-6: it must not be false; the order axioms must be a "
+                "chain through all symbolic constants consistent with the byte order of the users' names", "7.1 C12",
+            "TLC; bounded three-valued evaluation (an axiom is reported only when definitely false on a window)",
+            "TLA+ standard interpretation + TLC evaluation of anthem's own axioms in recorded problems", "tla-syntax"),
     "C17": (TV, "for every generated (formula, variable, term) TLC checks Sat(F[x:=t], e) = Sat(F, e[x := value of t]) for every "
                 "interpretation and assignment, and the free-variable equation", "7.1 C17", SEM_NOTE,
             "TLA+ semantics + TLC trace validation of Formula::substitute", "tla-sem"),
+    "C19": (TV, "for C02/C03 tasks under ALL combinations of --no-simplify, --no-eq-break, --decomposition (and mu for strong), TLC checks "
+                "for every enumerated interpretation that 'some problem of the direction is refuted' has the same value in every family",
+            "7.1 C19", SEM_NOTE, "TLC comparison of the emitted problem families (no reference semantics involved)", "tla-sem"),
     "C20": (MC, "Files.tla models Files::sort (one action per visited entry) and the role accessors; TLC checks walk = declarative walk and "
                 "the swap/move properties on every bounded layout; TLC-generated layouts are materialised on disk, run through the real CLI "
                 "and the observed roles (marker numerals in axioms/conjectures) validated against the model, including the swapped run",
